@@ -118,8 +118,10 @@ def plan_for(prop, tier, seed):
         for e in _seeded_cw(seed, 2 if q else 16):
             P.add(e, *fams)
         if not q:
-            for n in ("a1", "a2", "thai", "cjk", "tokyo", "astral"):
+            for n in ("a1", "a2", "thai", "cjk", "tokyo"):
                 P.add(cw(n), *fams)
+            # 128 k-entry mapper table: T2 (two symbolic reads of it) exceeds 16 GB; T1 takes ~15 min
+            P.add(cw("astral"), *[f for f in fams if f != "T2"])
         if e_method:
             L = 2 if q else 3
             P.add(bw("find_reset", suffix="_e"), "E:m=%s,L=%d" % (e_method, L))
@@ -128,7 +130,7 @@ def plan_for(prop, tier, seed):
                 P.add(bw("unit", suffix="_e"), "E:m=%s,L=%d" % (e_method, L))
                 P.add(bw("bin", suffix="_e"), "E:m=%s,L=%d" % (e_method, L))
                 P.add(cw("tokyo", suffix="_e"), "E:m=%s,L=%d" % (e_method, 3))
-                for pre in ("6162", "6263", "61"):
+                for pre in (("61", "62") if e_method == "ovl" else ("6162", "6263", "61")):
                     P.add(bw("find_reset", suffix="_p" + pre), "E:m=%s,L=2,pre=%s" % (e_method, pre))
 
     def lm_core(kind, fams, withE=True):
